@@ -100,6 +100,9 @@ class World:
         self.sk2 = SigningKey.from_secret_exponent(self.dd2, curve=d.lib, hashfunc=hashlib.sha256)
         self.vk2 = VerifyingKey.from_string(self.sk2.get_verifying_key().to_string(), curve=d.lib, hashfunc=hashlib.sha256)
         self.sig2 = None
+        # the first key again, built from an affine point object that declares no order
+        Qd = rec.mul(c, self.dd, G)
+        self.vk3 = VerifyingKey.from_public_point(ELL.Point(cf, Qd[0], Qd[1]), curve=d.lib, hashfunc=hashlib.sha256)
 
     _sigs = {}
 
@@ -151,6 +154,9 @@ def _ops(n):
         "pub_x": lambda w: int(w.vk.pubkey.point.x()),
         "vk_to_string": lambda w: (w.vk.to_string("compressed").hex(), w.vk.to_string().hex()),
         "vk_eq": lambda w: (w.vk == w.sk.get_verifying_key(), w.vk != w.vk2),
+        "verify_noorder": lambda w: w.vk3.verify(w.sig, MSG),
+        "precompute_noorder": lambda w: (w.vk3.precompute(lazy=True), _aff(w.vk3.pubkey.point))[1],
+        "precompute_eager_noorder": lambda w: (w.vk3.precompute(lazy=False), w.vk3.verify(w.sig, MSG))[1],
     }
 
 
@@ -298,6 +304,7 @@ MUTATORS = ["mul_gen", "rmul_gen", "mul_P", "scale_P", "affine_P", "muladd", "mu
             "precompute_eager", "pickle_gen", "verify", "sign", "verify_other_key"]
 
 
+NOORDER = ["verify_noorder", "precompute_noorder", "precompute_eager_noorder"]
 SECOND_QUICK = ["x_P", "eq_same", "add_PQ", "pickle_P", "pickle_gen", "mul_gen", "verify",
                 "muladd", "scale_P", "verify_other_key", "vk_to_string"]
 
@@ -314,6 +321,8 @@ def units(tier, seed):
                    "affine_P", "pub_x", "vk_to_string", "vk_eq"]
         writers = ["scale_P", "affine_P", "mul_P", "muladd", "precompute", "precompute_eager"]
         pairs = [(a, b) for (a, b) in pairs if (a in MUTATORS and b in SECOND_QUICK) or (a in readers and b in writers)]
+        pairs += [(a, b) for a in NOORDER for b in NOORDER] + [("precompute_noorder", "pub_x"), ("verify_noorder", "verify"),
+                                                               ("verify", "verify_noorder")]
     # balance: long first operations first
     chunks = 30 if q else 60
     for i in range(chunks):
